@@ -343,13 +343,16 @@ class FormulaMaterializer(metaclass=FormulaMaterializerMeta):
 
     def _prepare_factor_evaluation_model_spec(
         self, model_specs: ModelSpecs
-    ) -> tuple[set[Factor], ModelSpec]:
+    ) -> tuple[Iterable[Factor], ModelSpec]:
         from formulaic.model_spec import ModelSpec
 
         output = set()
         na_action = set()
         ensure_full_rank = set()
-        factors: set[Factor] = set()
+        # Factors are pooled in order of first appearance (not in a `set`, whose
+        # iteration order varies with the interpreter's hash seed), since this is
+        # the order in which they will be evaluated.
+        factors: dict[Factor, None] = {}
         transform_state = {}
         encoder_state = {}
 
@@ -358,7 +361,9 @@ class FormulaMaterializer(metaclass=FormulaMaterializerMeta):
             na_action.add(model_spec.na_action)
             ensure_full_rank.add(model_spec.ensure_full_rank)
             factors.update(
-                itertools.chain(*(term.factors for term in model_spec.formula))
+                dict.fromkeys(
+                    itertools.chain(*(term.factors for term in model_spec.formula))
+                )
             )
             transform_state.update(
                 model_spec.transform_state
@@ -372,7 +377,7 @@ class FormulaMaterializer(metaclass=FormulaMaterializerMeta):
                 "Provided `ModelSpec` instances are not consistent."
             )  # pragma: no cover; will only occur if users manually construct a structured model spec.
 
-        return factors, cast(
+        return tuple(factors), cast(
             ModelSpec,
             ModelSpec.from_spec(
                 [],
